@@ -31,6 +31,8 @@ REJECTIONS = {
     'bad-units-type:equipment': {'t': 'equipment', 'attrs': {'weight': {'raw': {'value': 1.5, 'units': 5}}}},
     'units-not-settable:comment': {'t': 'comment', 'attrs': {'text': {'raw': {'value': ['a'], 'units': 'm'}}}},
     'bad-cast:channel': {'t': 'channel', 'cast': 'int64', 'attrs': {}},
+    'bad-cast-string:channel': {'t': 'channel', 'cast_raw': 'float32', 'attrs': {}},
+    'bad-cast-pytype:channel': {'t': 'channel', 'cast_raw': 'pyfloat', 'attrs': {}},
     'bad-origin-ref:zone': {'t': 'zone', 'oref': 'seven', 'attrs': {}},
     'name-type:zone': {'t': 'zone', 'name_raw': 5, 'attrs': {}},
     'dup-dataset:channel': {'t': 'channel', 'dsname': '$EXISTING', 'attrs': {}},
@@ -160,15 +162,33 @@ def failed_writes(draw):
                    byte_orders=('<',), sources=('dict',))
     spec = draw(file_specs(prof))
     damage = draw(st.sampled_from(['missing-data', 'bad-ocs', 'wrong-dimension', 'bad-window', 'hc-signed',
-                                   'hc-nonuniform-index', 'hc-nonuniform-index']))
-    return {'kind': 'failed-write', 'spec': spec, 'damage': damage, 'sel': draw(st.integers(0, 50))}
+                                   'hc-nonuniform-index', 'hc-nonuniform-index', 'rejected-assignment',
+                                   'rejected-assignment', 'rejected-assignment']))
+    case = {'kind': 'failed-write', 'spec': spec, 'damage': damage, 'sel': draw(st.integers(0, 50))}
+    if damage == 'rejected-assignment':
+        case['assign'] = draw(st.lists(st.tuples(st.sampled_from(sorted(BAD_ASSIGNMENTS)), st.integers(0, 7)),
+                                       min_size=1, max_size=3))
+        case['derive_index'] = draw(st.booleans())
+    return case
+
+
+# (object kind, attribute, value that the attribute's converter rejects)
+BAD_ASSIGNMENTS = {
+    'frame.index_max': ('frame', 'index_max', 'deep'), 'frame.index_min': ('frame', 'index_min', 'x'),
+    'frame.spacing': ('frame', 'spacing', 'wide'), 'frame.index_type': ('frame', 'index_type', 5),
+    'frame.encrypted': ('frame', 'encrypted', 'yes'),
+    'channel.dimension-str': ('channel', 'dimension', 'x'), 'channel.dimension-frac': ('channel', 'dimension', [2.5]),
+    'channel.element_limit': ('channel', 'element_limit', [2.5]),
+    'channel.representation_code': ('channel', 'representation_code', 'zzz'),
+    'channel.units': ('channel', 'units', 5), 'channel.long_name': ('channel', 'long_name', 5),
+}
 
 
 class C20(Property):
     id = 'C20'
     number = 20
     technique = ("model-based testing of call histories with rejected calls: Hypothesis inserts 1-3 calls that must be "
-                 "rejected (22 kinds, before and after the object registers with its set) into valid add_* sequences, "
+                 "rejected (26 kinds, before and after the object registers with its set) into valid add_* sequences, "
                  "preferably before a valid call of the same type and name; the file written afterwards must be "
                  "byte-identical to the one a fresh process writes for the history without the rejected calls. Second "
                  "family: a write that raises, the cause removed through the public API, write again vs. fresh process")
@@ -176,7 +196,8 @@ class C20(Property):
             "value outside a hard enumeration, reference of the wrong class, unknown keyword, bad dict key, bad units, "
             "invalid cast dtype, bad origin reference, non-str name, duplicate dataset name, non-array data ...; "
             "failed-write family: missing data / rejected chunk size / wrong user dimension / bad window / HC breach, "
-            "then repaired; non-trivial = a rejected call followed by a later valid call of the same type and name, or "
+            "then repaired; or write, 1-3 rejected assignments to attributes of existing objects, write another row "
+            "range; non-trivial = a rejected call followed by a later valid call of the same type and name, or "
             "a failed write followed by a successful one")
     assumptions = ("a call expected to be rejected that is accepted makes the case inconclusive here (counted), not a "
                    "violation",)
@@ -329,6 +350,8 @@ class C20(Property):
                 return Result([], labels, False, 'damage-not-applicable')
         elif damage == 'hc-nonuniform-index':
             return self.run_hc_nonuniform(case, ctx, labels)
+        elif damage == 'rejected-assignment':
+            return self.run_rejected_assignment(case, ctx, labels)
         first = 'written'
         try:
             with hc:
@@ -411,6 +434,66 @@ class C20(Property):
             where, detail = localise(mine[1], theirs)
             viol.append(Violation(f"failed-write-left-trace/hc-nonuniform-index/{where.split(':')[0]}", f"{where}: {detail}"))
         return Result(viol, labels, mine[0] == 'written', 'repaired-' + mine[0], sample={'damage': 'hc-nonuniform-index'})
+
+    def run_rejected_assignment(self, case, ctx, labels):
+        """write; assignments of invalid values to attributes of existing objects (each must raise); write another row
+        range. The second file must be the one a fresh process writes for that row range."""
+        spec = copy.deepcopy(case['spec'])
+        ops = spec['lfs'][0]['ops']
+        frames = [j for j, op in enumerate(ops) if op['t'] == 'frame']
+        if case.get('derive_index'):
+            # the frame's index description is derived from the data at each write
+            f = ops[frames[case['sel'] % len(frames)]]
+            f['attrs']['index_type'] = {'v': 'BOREHOLE-DEPTH', 'r': 'kw'}
+            for k in ('spacing', 'index_min', 'index_max', 'direction'):
+                f['attrs'].pop(k, None)
+            labels.append('derived-index')
+        try:
+            b = B.build(spec, ctx.scratch)
+        except B.BuildError:
+            return Result([], labels, False, 'invalid-base')
+        data = B.make_source(spec, b, ctx.scratch)
+        kw = B.write_kwargs(spec)
+        try:
+            b.df.write(ctx.path(), data=data, **kw)
+        except Exception:
+            return Result([], labels, False, 'invalid-base')
+        for key, sel in case['assign']:
+            kind, attr, val = BAD_ASSIGNMENTS[key]
+            objs = [j for j, op in enumerate(ops) if op['t'] == kind]
+            item = b.items[(0, objs[sel % len(objs)])]
+            a = getattr(item, attr)
+            try:
+                a.value = val
+            except Exception:
+                labels.append('assign:' + key)
+                continue
+            self.kinds['accepted-assign:' + key] = self.kinds.get('accepted-assign:' + key, 0) + 1
+            return Result([], labels + ['bad-assignment-accepted'], False, 'bad-call-accepted')
+        rows = min(op['data']['shape'][0] for op in ops if op['t'] == 'channel' and op.get('data'))
+        net = copy.deepcopy(spec)
+        kw2 = dict(kw)
+        if rows >= 2:
+            kw2['from_idx'] = net['write']['from'] = 1
+            kw2['to_idx'] = net['write']['to'] = max(2, rows - 1)
+        path = ctx.path()
+        try:
+            b.df.write(path, data=data, **kw2)
+            with open(path, 'rb') as fh:
+                mine = ('written', fh.read(), None)
+        except Exception as exc:
+            tn, site = dw.exc_site(exc)
+            mine = ('raised', None, f"{tn}@{site}: {exc}"[:300])
+        oc, theirs, exc = self.fresh.write(net)
+        viol = []
+        if mine[0] != oc:
+            viol.append(Violation(f"write-after-rejected-assignment-{mine[0]}-fresh-{oc}", f"{mine[2]} / {exc}"))
+        elif oc == 'written' and mine[1] != theirs:
+            where, detail = localise(mine[1], theirs)
+            viol.append(Violation(f"rejected-assignment-left-trace/{where.split(':')[0]}",
+                                  f"{where}: {detail}; after {[k for k, _ in case['assign']]}"))
+        return Result(viol, labels, mine[0] == 'written' and rows >= 2, 'second-' + mine[0],
+                      sample={'damage': 'rejected-assignment', 'assign': case['assign']})
 
     def self_check(self, merged, tier):
         missing = [k for k in REJECTIONS if not merged['labels'].get('rej:' + k)]
